@@ -227,6 +227,27 @@ def _decoder_history(groups, rng, n):
     for _ in range(n):
         pgn, g = rng.choice(multi)
         hist.append((pgn, g, rng.choice(_payloads(g, rng, 1))))
+    # sibling pairs: a payload of definition A immediately followed by one of a sibling B that agrees with it on as
+    # many leading bytes as B's match fields allow (only B's own match fields are rewritten) — whatever a decoder
+    # remembers about the first must not decide the second
+    for pgn, g in multi:
+        nbits = max([64] + [8 * d.get("Length", 8) for d in g if isinstance(d.get("Length", 8), int)])
+        for d in g:
+            if not _match_fields(d):
+                continue
+            pa = rng.getrandbits(nbits)
+            for f in _match_fields(d):
+                mask = ((1 << f["BitLength"]) - 1) << f["BitOffset"]
+                pa = (pa & ~mask) | (f["Match"] << f["BitOffset"])
+            for e in rng.sample(g, min(len(g), 4)):
+                if e is d or not _match_fields(e):
+                    continue
+                pb = pa
+                for f in _match_fields(e):
+                    mask = ((1 << f["BitLength"]) - 1) << f["BitOffset"]
+                    pb = (pb & ~mask) | (f["Match"] << f["BitOffset"])
+                if pb != pa:
+                    hist += [(pgn, g, pa), (pgn, g, pb)]
     # make sure a no-match payload precedes a matching one of the same PGN for every group
     for pgn, g in multi:
         ps = _payloads(g, rng, 1)
